@@ -104,7 +104,9 @@ fn run_case(seed: u64, idx: u64, all_rates: bool) -> CaseOut {
     let n_ops = rng.range(200, 1500);
     // arrival mode 6 is the metronome: a burst that empties the bucket, then requests exactly one refresh
     // interval apart - each of them is due
-    let mode_major = rng.below(7);
+    // arrival mode 7 is the finish/reset storm: every request is a reset() of a bar that was finished just before
+    // (finishing paints a forced frame; the reset that follows is an ordinary request again)
+    let mode_major = rng.below(8);
     let ceil_interval = interval_ns + if 1_000_000_000 % rate as u64 != 0 { 1 } else { 0 };
     let mut frames: Vec<Frame> = Vec::new();
     let mut requests = 0u64;
@@ -115,6 +117,7 @@ fn run_case(seed: u64, idx: u64, all_rates: bool) -> CaseOut {
     let mut max_stale = 0u64;
     let mut nested = 0u64;
     let mut episodes = 0u64;
+    let mut finish_resets = 0u64;
     let steady_episode = rng.chance(1, 3);
     let mut verdict = Verdict::Held;
     let feats = |extra: &str| {
@@ -138,6 +141,7 @@ fn run_case(seed: u64, idx: u64, all_rates: bool) -> CaseOut {
     'ops: for opi in 0..n_ops {
         let mode = if rng.chance(3, 4) { mode_major } else { rng.below(6) };
         let metronome = mode_major == 6;
+        let storm = mode_major == 7;
         let g = if metronome {
             if opi < 30 {
                 0
@@ -145,7 +149,8 @@ fn run_case(seed: u64, idx: u64, all_rates: bool) -> CaseOut {
                 ceil_interval * rng.range(1, 2)
             }
         } else {
-            gap(&mut rng, interval_ns, mode.min(5))
+            let m = if storm { *rng.pick(&[0u64, 0, 1, 5]) } else { mode.min(5) };
+            gap(&mut rng, interval_ns, m)
         };
         clock.fetch_add(g, Ordering::SeqCst);
         let now = clock.load(Ordering::SeqCst);
@@ -211,7 +216,7 @@ fn run_case(seed: u64, idx: u64, all_rates: bool) -> CaseOut {
             nested += 1;
             continue 'ops;
         }
-        let req = match if metronome { 7 } else { rng.below(21) } {
+        let req = match if metronome { 7 } else if storm { 20 } else { rng.below(21) } {
             20 => Req::Reset,
             0 => Req::Force,
             1 => Req::Println,
@@ -220,6 +225,19 @@ fn run_case(seed: u64, idx: u64, all_rates: bool) -> CaseOut {
             11..=16 => Req::Inc,
             _ => Req::SetPos,
         };
+        if req == Req::Reset && (storm || rng.chance(1, 2)) {
+            // the bar is finished first (a forced frame, sometimes followed by a tick of the finished bar - forced too)
+            let f0 = spy.flushes();
+            bars[b].finish();
+            if rng.chance(1, 4) {
+                bars[b].tick();
+            }
+            for _ in 0..(spy.flushes() - f0) {
+                frames.push(Frame { t: now, forced: true, update_of: None });
+                last_paint = Some(now);
+            }
+            finish_resets += 1;
+        }
         let before = spy.flushes();
         match req {
             Req::Tick => bars[b].tick(),
@@ -389,6 +407,7 @@ fn run_case(seed: u64, idx: u64, all_rates: bool) -> CaseOut {
     co.count("skipped_requests", skipped);
     co.count("nested_update_requests_with_stale_stamp", nested);
     co.count("steady_tick_on_off_episodes", episodes);
+    co.count("resets_of_a_finished_bar", finish_resets);
     co.max("staleness_ns", max_stale);
     co.max("window_excess_milliframes_over_RT", if max_excess > 0 { (max_excess / 1_000_000) as u64 } else { 0 });
     co.see("rates", rate as u64);
